@@ -155,6 +155,41 @@ def perturb(nng, rng, feats):
     if rng.random() < 0.3:
         nng.metadata.append((rng.choice(["extra_meta", "OfflineMemoryAllocation", "vela_version"]), np.frombuffer(b"\x01\x02\x03", np.uint8)))
         feats.add("w_metadata_str_name")
+    # the writer's own failure paths (one per case at most): the model must raise the same kind
+    r = rng.random()
+    real_ops = [op for sg in nng.subgraphs for ps in sg.passes for op in ps.ops if op.type.name not in ("Const", "Placeholder", "SubgraphInput")]
+    if r < 0.02 and [t for t in tensors if t.values is None and t.address is None]:
+        t = rng.choice([t for t in tensors if t.values is None and t.address is None])
+        t.mem_type = MemType.Scratch
+        if t.address is None:
+            t.address = rng.choice([1 << 31, (1 << 32) + 5, -(1 << 31) - 1])
+            feats.add("w_err_address_outside_int32")
+    elif r < 0.04:
+        sg = nng.subgraphs[0]
+        sg.original_output_positions = list(sg.original_output_positions or []) + [len(sg.output_tensors) + rng.randint(0, 2)]
+        feats.add("w_err_output_position_out_of_range")
+    elif r < 0.06 and real_ops:
+        from ethosu.vela.operation import Op
+
+        rng.choice(real_ops).type = rng.choice([Op.Memcpy, Op.Conv2D, Op.Clamp])       # no entry in builtin_operator_inv_map / a convolution-like type
+        feats.add("w_err_type_without_serialiser")
+    elif r < 0.08 and real_ops:
+        from ethosu.vela.operation import Op
+
+        convs = [op for op in real_ops if op.type in (Op.Conv2DBias, Op.DepthwiseConv2DBias, Op.FullyConnected)]
+        if convs:
+            op = rng.choice(convs)
+            if rng.random() < 0.5:
+                op.inputs = op.inputs[:1]
+                feats.add("w_err_convolution_with_one_operand")
+            elif len(op.inputs) > 1:
+                op.inputs[1] = None
+                feats.add("w_err_convolution_weights_none")
+    elif r < 0.09 and tensors:
+        from ethosu.vela.data_type import DataType
+
+        rng.choice(tensors).dtype = rng.choice([DataType.int48, DataType.quint16, DataType.qint12, DataType.quint8, DataType.qint8])
+        feats.add("w_err_dtype_without_tensor_type")
 
 
 def write_real(nng):
@@ -165,6 +200,9 @@ def write_real(nng):
 
 
 def run_case(seed, idx, malformed=False, do_perturb=True, payloads=True):
+    from ethosu.vela.tensor import TensorAddressMap
+
+    TensorAddressMap.clear_address_map()        # process-wide state of the compiler; every case starts from none
     rng = random.Random((seed << 24) ^ (idx * 2654435761 % (1 << 24)) ^ (0x5A5A if malformed else 0))
     m = wgen.random_model(rng, idx, malformed)
     data = wgen.serialize(m)
